@@ -65,7 +65,7 @@ def ktDefs (cfg : Kotlin.Cfg) : RustItem → List (Str × Str)
     ((structVariantsOf e).map fun p => (ktStructKw p.2, cfg.pfx ++ (e.id.renamed ++ p.1.original ++ s%"Inner"))) ++
     [(if e.keys.isNone then s%"enum class " else s%"sealed class ", cfg.pfx ++ e.id.renamed)]
   | .alias a =>
-    -- (the `typealias` is named after `id.renamed` since the `fix:` commit b182a80; was `id.original`)
+    -- (the `typealias` is named after `id.renamed` since the `fix:` commit 0c924cd; was `id.original`)
     if Kotlin.isInline a.decorators then [(s%"value class ", cfg.pfx ++ a.id.renamed)]
     else [(s%"typealias ", cfg.pfx ++ a.id.renamed)]
   | .const _ => []
@@ -81,7 +81,7 @@ def swDefs (cfg : Swift.Cfg) : RustItem → List (Str × Str)
   | .const _ => []
 
 /-- Scala: a struct without fields is a plain `class`; an enum is a sealed trait plus its companion
-object; aliases are named after `id.renamed` (since the `fix:` commit b182a80; was `id.original`);
+object; aliases are named after `id.renamed` (since the `fix:` commit 0c924cd; was `id.original`);
 consts are not supported -/
 def scStructKw (fields : List RustField) : Str := if fields.isEmpty then s%"class " else s%"case class "
 
@@ -101,7 +101,7 @@ itself (which is followed by its methods and `New…` constructors); a unit enum
 followed by its `const (…)` block -/
 def goDefs (U : UnicodeOps) (cfg : Go.Cfg) : RustItem → Outcome (List (Str × Str))
   | .struct s => (Go.acr U cfg s.id.renamed).bind fun n => .ok [(s%"type ", n)]
-  | .alias a => (Go.acr U cfg a.id.renamed).bind fun n => .ok [(s%"type ", n)]   -- (`id.original` before b182a80)
+  | .alias a => (Go.acr U cfg a.id.renamed).bind fun n => .ok [(s%"type ", n)]   -- (`id.original` before 0c924cd)
   | .const c => .ok [(s%"const ", Rename.toPascal c.id.renamed)]
   | .enum e =>
     (Outcome.mapM' (fun (p : Id × List RustField) =>
